@@ -38,7 +38,7 @@ man = {
         {"name": "libFuzzer", "path": "props/*_fuzz.cpp", "kind_free_text": "coverage-guided fuzzing (clang -fsanitize=fuzzer,address,undefined) with a structure-aware decode layer and the semantic oracle inside the target", "serves_properties": [p for p in ALL if p in PROPS and any(t.get("fuzz") for t in PROPS[p]["targets"])]},
     ],
     "checks": checks,
-    "notes": "All checks: cwd /verif, rebuild the sanitized library from /repo's working tree (cache keyed by a content hash), replay saved counterexamples first, then run the engines with VERIF_SEED. See DESIGN.md.",
+    "notes": "All checks: cwd /verif, rebuild the sanitized library from /repo's working tree (cache keyed by a content hash), replay saved counterexamples first, then run the engines with VERIF_SEED. Every check runs its harness against several builds of the library compiled from the same working tree (ASan/UBSan release build, debug build with -DDEBUG and assertions, a bare-metal-style build (-funsigned-char -fshort-enums -ffreestanding -std=c99, no swap builtins), -O2, gcc, CMake-style unity build, clang CFI, an alternative toolchain.h), under valgrind, before main(), and - where it matters - under another locale, floating-point mode or stack limit; a violation in any of them is a violation of the property (DESIGN.md 2.3). The tools this needs besides clang/rapidcheck (gcc, lld, llvm-ar-14, localedef, valgrind, libbsd) are probed by setup.sh. See DESIGN.md.",
     "not_applicable": [{"property_id": p, "reason": "check not built yet in this round (planned, see DESIGN.md section 4); the technique applies"} for p in ALL if p not in PROPS],
 }
 json.dump(man, open("MANIFEST.json", "w"), indent=1)
